@@ -131,7 +131,7 @@ theorem C14_req_each_once (lines reqs new : List String) (h : reqAdd lines reqs 
 requirements inserted contiguously after line `idx`. -/
 theorem C14_cfg_preserves (lines : List String) (lastDep : String) (reqs new : List String)
     (h : cfgBuildNewline lines lastDep reqs = some new) :
-    ∃ idx, idx < lines.length ∧ new.take (idx + 1) = lines.take (idx + 1) ∧
+    ∃ idx, idx < lines.length ∧ new.take idx = lines.take idx ∧ new[idx]? = some (terminate (lines.getD idx "")) ∧
       new.drop (idx + 1 + reqs.length) = lines.drop (idx + 1) ∧ new.length = lines.length + reqs.length := by
   unfold cfgBuildNewline at h
   cases hi : (lines.map stripS).idxOf? lastDep with
@@ -143,13 +143,19 @@ theorem C14_cfg_preserves (lines : List String) (lastDep : String) (reqs new : L
       have := List.idxOf?_eq_some_iff.mp hi
       obtain ⟨h1, _⟩ := this
       simpa using h1
-    refine ⟨idx, hlt, ?_, ?_, ?_⟩
-    · have : (lines.take (idx + 1)).length = idx + 1 := by simp; omega
-      rw [List.append_assoc, List.take_left' this]
-    · have : (lines.take (idx + 1) ++ reqs.map (fun r => leadingWs (lines.getD idx "") ++ r ++ "\n")).length = idx + 1 + reqs.length := by
+    have hlen : (lines.take idx).length = idx := by simp; omega
+    refine ⟨idx, hlt, ?_, ?_, ?_, ?_⟩
+    · rw [List.append_assoc, List.append_assoc, List.take_left' hlen]
+    · rw [List.append_assoc, List.append_assoc, List.getElem?_append_right (by omega)]
+      simp [hlen]
+    · have : (lines.take idx ++ [terminate (lines.getD idx "")] ++ reqs.map (fun r => leadingWs (lines.getD idx "") ++ r ++ "\n")).length = idx + 1 + reqs.length := by
         simp; omega
       rw [List.drop_left' this]
     · simp; omega
+
+/-- a line that has its terminator is left as it is: for a manifest whose dependency lines all end in a
+newline the writer only inserts -/
+theorem terminate_of_terminated (s : String) (h : s.endsWith "\n" = true) : terminate s = s := by simp [terminate, h]
 
 -- non-vacuity
 example : ∃ new, reqAdd ["requests\n", "flask"] ["security==1.3.1"] = some new ∧ new.length = 3 := ⟨_, rfl, by simp [fixLast]⟩
